@@ -641,6 +641,13 @@ def run(ck):
 
 def replay(ck, rp):
     r = rp["replay"]
+    if not isinstance(r, dict) or "archive_hex" not in r:
+        # "no failing input found": a proof obligation / correspondence was broken -> re-run the check itself
+        print("replay of a broken obligation/correspondence (%s): re-running the check" % rp.get("signature"))
+        for u in (r if isinstance(r, list) else [r]):
+            print("  recorded:", str(u)[:400])
+        run(ck)
+        return ck.finish()
     exe = vlib.build_harness("c09_corrupt", ["c09_corrupt.c"])
     work = mkwork()
     try:
